@@ -487,7 +487,75 @@ def run_checklist_case(case):
     return out
 
 
+_INT_MODEL = None
+
+
+@robust()
+def run_int_case(case):
+    """A model built with dtype=int: moves are judged in the model's own arithmetic (a move of 1 at 2**60 is a move of 1)."""
+    global _INT_MODEL
+    if _INT_MODEL is None:
+        _INT_MODEL = fsic.build_model(fsic.parse_model('Y = Y + X\nZ = Z'))
+    start, step, tol, max_iter = case['start'], case['step'], case['tol'], case['max_iter']
+    m = _INT_MODEL(range(3), dtype=np.int64)
+    m.Y = start
+    m.X = [0, step, 0]
+    m.Z = 5
+    r = refsolve.call_outcome(m.solve_t, 1, max_iter=max_iter, tol=tol, failures='ignore')
+    # reference: pass k moves Y by `step`; converged at the first k >= 1 with |step| < tol
+    if abs(step) < tol:
+        want = ('.', 1, start + step)
+    else:
+        want = ('F', max_iter, start + step * max_iter)
+    got = (str(m.status[1]), int(m.iterations[1]), int(m.Y[1]))
+    if got != want:
+        return [('int-dtype', want, got, 'an integer model moving by %d per pass from %d with tol=%r' % (step, start, tol))]
+    return []
+
+
+def run_ints(acc, tier):
+    for start in (7, 2 ** 53 + 1, 2 ** 60 + 3, -(2 ** 60) - 3):
+        for step in (0, 1, -1, 2, 1000):
+            for tol in (1e-10, 1, 2, 1.5, 1001):
+                for max_iter in (1, 3):
+                    case = dict(kind='int-dtype', start=start, step=step, tol=tol, max_iter=max_iter)
+                    acc.evaluations += 1
+                    acc.nontrivial += 1
+                    for key, exp, obs, w in run_int_case(case):
+                        acc.violation(key, case, exp, obs, w)
+
+
+@robust()
+def run_alias_shadow_case(case):
+    """The solver reads its check variables from the model's own storage: an alias that happens to be spelled like a check
+    variable (a map the mixin accepts) does not redirect the convergence test. Differential against the same class without aliases."""
+    global _SHADOW
+    if '_SHADOW' not in globals() or _SHADOW is None:
+        base = fsic.build_model(fsic.parse_model('Y = 0.5 * Y + G'))
+        _SHADOW = (base, type('Shadowed', (AliasMixin, base), {'ALIASES': {'Y': 'G'}}))
+    out = []
+    res = []
+    for cls in _SHADOW:
+        m = cls(range(4))
+        vars(m)['_G'][:] = [1.0, 2.0, 3.0, 4.0]
+        r = refsolve.call_outcome(m.solve_t if case['entry'] == 'solve_t' else m.solve_period, 2, tol=case['tol'], max_iter=100)
+        res.append((r[0], str(vars(m)['_status'][2]), int(vars(m)['_iterations'][2]), float(vars(m)['_Y'][2])))
+    if res[0] != res[1]:
+        out.append(('alias-shadows-check-variable', res[0], res[1], 'convergence is not judged on the stored check variable when an alias is spelled like it'))
+    return out
+
+
+_SHADOW = None
+
+
 def run_checklists(acc, tier):
+    for entry in ('solve_t', 'solve_period'):
+        for tol in (1e-10, 1e-3, 0.5):
+            case = dict(kind='alias-shadow', entry=entry, tol=tol)
+            acc.evaluations += 1
+            acc.nontrivial += 1
+            for key, exp, obs, w in run_alias_shadow_case(case):
+                acc.violation(key, case, exp, obs, w)
     for what in ('drop-B', 'add-C', 'empty', 'copy-then-drop-B', 'hook-moves-A'):
         for entry in ('solve_t', 'solve_period', 'solve'):
             for max_iter in (1, 2, 4):
@@ -504,6 +572,7 @@ def run_block(block, tier, seed):
     acc = Acc()
     if block['kind'] == 'check-lists':
         run_checklists(acc, tier)
+        run_ints(acc, tier)
     elif block['kind'] == 'traces':
         run_traces(block, tier, acc)
     elif block['kind'] == 'offsets':
@@ -555,6 +624,10 @@ def run_one(case):
         return run_period_case(case)
     if kind == 'check-list':
         return run_checklist_case(case)
+    if kind == 'int-dtype':
+        return run_int_case(case)
+    if kind == 'alias-shadow':
+        return run_alias_shadow_case(case)
     raise ValueError(kind)
 
 
